@@ -15,9 +15,20 @@
   The pre-fix code (`runOld`: one cursor shared by all invocations of the continuation; the server
   message chain forwarding the original request) is refuted by concrete 2-stage chains.
 
-  Concurrency: the chain code reads `c.middlewares` / `exec.middlewares` and the per-call index `i`
-  only; a run has no state outside its own arguments (here: its own `St`), so concurrent requests
-  sharing a chain are independent runs of `runImpl` — checked on the real code by engine `mw`.
+  Registration (section 5): every call of `Use` / `BatchItemUse` / `WithMiddlewares` appends, so the
+  chain is the concatenation of the argument lists in call order.
+  Several items (section 6): the batch loop enters the item chain once per item; every item gets one
+  complete well-nested execution of the WHOLE item chain, whatever the stages did on earlier items.
+  Both server chains (section 7): the innermost continuation of the message chain is the item chain.
+  The header the handler's context reports (section 8): `HdrMode.core` (batch context made by the core
+  handler) reports the header of the message that is executed; `HdrMode.entry` — the code at /repo
+  HEAD — reports the header of the ORIGINAL request (`header_entry_stale`, reported as a finding).
+  Concurrency (section 9): the chain code is run under INTERFERENCE — a memory cell outside the call
+  (`St.cur`) that other goroutines overwrite arbitrarily after every event: result and trace are
+  those of the undisturbed run (`concurrent_run_independent`), because the index of `nextFrom(i)`
+  is a parameter of the closure; a chain keeping its cursor in such a cell is disturbed
+  (`shared_cursor_disturbed`). That the real chain code touches no other shared mutable state is
+  checked on the real code by the concurrent phase of engine `mw`.
 -/
 import KmipModel.Lemmas.MiddlewareLemmas
 namespace Kmip.C19
@@ -218,6 +229,198 @@ example :
 /-- the current code on the first witness: it is the specification (by 1b), here evaluated. -/
 example :
     (enters (runImpl .client [⟨1, [.call, .call]⟩, ⟨2, [.call]⟩] ⟨[], .ok 5, []⟩ ⟨1, 1⟩ 1).2).length = 3 := by
+  rw [runImpl_eq_runSpec]
+  decide
+
+/-! ### 5. registration order -/
+
+/-- 5a. `exec.Use(a…); exec.Use(b…); …` (likewise `BatchItemUse`, and several `WithMiddlewares`
+    options): the chain is the concatenation of the argument lists in call order. -/
+theorem registration_is_concatenation (calls : List (List Stage)) :
+    registered calls = calls.flatten := registered_eq_flatten calls
+
+/-- 5b. … hence the stages run in registration order: the trace is one well-nested execution of
+    first the stages of the first call in argument order, then those of the second call, … -/
+theorem registration_order (k : Kind) (calls : List (List Stage)) (core : Core) (m0 : Msg)
+    (c0 : Nat) :
+    ∃ r, WN (CoreSem k) (calls.flatten.map Stage.id) m0 c0 r
+        (runImpl k (registered calls) core m0 c0).2 ∧
+      (runImpl k (registered calls) core m0 c0).1 = finish k m0.op r := by
+  rw [registered_eq_flatten]
+  exact trace_wellNested k _ core m0 c0
+
+example : registered [[⟨1, [.call]⟩, ⟨2, [.call]⟩], [], [⟨3, [.call]⟩]]
+    = [⟨1, [.call]⟩, ⟨2, [.call]⟩, ⟨3, [.call]⟩] := by decide
+
+/-! ### 6. several items -/
+
+/-- 6a. A batch of ANY number of items through the item chain: the trace is the concatenation, in
+    item order, of one complete well-nested execution of the WHOLE chain per item — each receiving
+    its own item and the context of the batch — and response item `j` is the finished result of
+    execution `j`. In particular what the stages did on earlier items (retries, short-circuits,
+    substituted items) has no effect on how far later items travel. -/
+theorem items_each_full_chain (chain : List Stage) (core : Core) (h0 c0 : Nat) (items : List Msg) :
+    ItemsWN (chain.map Stage.id) c0 items (runBatchItems chain core h0 c0 items).1
+      (runBatchItems chain core h0 c0 items).2 := by
+  obtain ⟨tr, htr, hw⟩ := runItems_ItemsWN chain core h0 c0 items St.init
+  simp only [runBatchItems]
+  rw [htr]
+  simpa [St.init] using hw
+
+/-- 6b. reading `ItemsWN`: as many response items as request items. -/
+theorem ItemsWN_length {ids : List Nat} {c : Nat} {items : List Msg} {rs : List R}
+    {tr : List Event} (h : ItemsWN ids c items rs tr) : rs.length = items.length := by
+  induction h with
+  | nil => rfl
+  | cons _ _ _ _ _ _ _ _ ih => simp [ih]
+
+/-- 6c. the batch loop is the specification (per item plain nested composition). -/
+theorem items_impl_eq_spec (chain : List Stage) (core : Core) (h0 c0 : Nat) (items : List Msg) :
+    runBatchItems chain core h0 c0 items = specBatchItems chain core h0 c0 items := by
+  simp only [runBatchItems, specBatchItems, runItems_eq_specItems]
+
+/-- non-vacuity: three items through [retry-while-failed; tag]: the handler fails once (on item 0,
+    which is retried), items 1 and 2 still traverse BOTH stages. -/
+example :
+    (runBatchItems [⟨1, [.call, .callIfFail]⟩, ⟨2, [.setMsg (.tag 2), .call]⟩] ⟨[.err 1], .ok 5, []⟩
+      0 9 [⟨1, 1⟩, ⟨2, 2⟩, ⟨3, 1⟩]).1
+      = [⟨some ⟨5, 1⟩, none⟩, ⟨some ⟨5, 2⟩, none⟩, ⟨some ⟨5, 1⟩, none⟩] ∧
+    enters (runBatchItems [⟨1, [.call, .callIfFail]⟩, ⟨2, [.setMsg (.tag 2), .call]⟩]
+      ⟨[.err 1], .ok 5, []⟩ 0 9 [⟨1, 1⟩, ⟨2, 2⟩, ⟨3, 1⟩]).2
+      = [(1, ⟨1, 1⟩, 9), (2, ⟨1, 1⟩, 9), (2, ⟨1, 1⟩, 9), (1, ⟨2, 2⟩, 9), (2, ⟨2, 2⟩, 9),
+         (1, ⟨3, 1⟩, 9), (2, ⟨3, 1⟩, 9)] := by
+  rw [items_impl_eq_spec]
+  decide
+
+/-! ### 7. both server chains -/
+
+/-- 7a. message chain and item chain installed together: the code is the nested composition of the
+    message stages around (the nested composition of the item stages around `executeItem`). -/
+theorem both_chains (hm : HdrMode) (mchain ichain : List Stage) (core : Core) (m0 : Msg) (c0 : Nat) :
+    runBoth hm mchain ichain core m0 c0 = runBothSpec hm mchain ichain core m0 c0 := by
+  unfold runBoth runBothSpec
+  rw [nextFrom_eq_specNext, List.drop_zero]
+  congr 2
+  funext m c s
+  simp only [bothCore]
+  rw [nextFrom_eq_specNext, List.drop_zero]
+
+/-- 7b. the trace is one well-nested execution of the message stages in registration order whose
+    innermost continuation is, for every invocation, one complete well-nested execution of the item
+    stages in registration order on the message it was given (`BothSem`). A message stage that
+    calls `next` twice therefore causes two complete traversals of the item chain. -/
+theorem both_wellNested (hm : HdrMode) (mchain ichain : List Stage) (core : Core) (m0 : Msg)
+    (c0 : Nat) :
+    ∃ r, WN (BothSem (ichain.map Stage.id)) (mchain.map Stage.id) m0 c0 r
+        (runBoth hm mchain ichain core m0 c0).2 ∧
+      (runBoth hm mchain ichain core m0 c0).1 = finish .srvmsg m0.op r := by
+  unfold runBoth
+  rw [nextFrom_eq_specNext, List.drop_zero]
+  obtain ⟨tr, htr, hwn⟩ :=
+    specNext_both_NextWN ichain core (hdrFn hm .srvmsg m0) mchain m0 c0 St.init
+  refine ⟨_, ?_, rfl⟩
+  have : (mkRun .srvmsg m0.op
+      (specNext (bothCore ichain core (hdrFn hm .srvmsg m0)) mchain m0 c0 St.init)).2 = tr := by
+    simpa [St.init, mkRun] using htr
+  rw [this]
+  exact hwn
+
+/-- non-vacuity: message stage 1 calls twice, item stage 101 tags: the item chain is traversed
+    twice, the handler runs twice. -/
+example :
+    enters (runBoth .entry [⟨1, [.call, .call]⟩] [⟨101, [.setMsg (.tag 7), .call]⟩]
+      ⟨[], .ok 5, []⟩ ⟨3, 1⟩ 9).2 = [(1, ⟨3, 1⟩, 9), (101, ⟨3, 1⟩, 9), (101, ⟨3, 1⟩, 9)] ∧
+    coreInputs (runBoth .entry [⟨1, [.call, .call]⟩] [⟨101, [.setMsg (.tag 7), .call]⟩]
+      ⟨[], .ok 5, []⟩ ⟨3, 1⟩ 9).2 = [(1, ⟨37, 1⟩, 9), (1, ⟨37, 1⟩, 9)] := by
+  rw [both_chains]
+  decide
+
+/-! ### 8. the request header the handler's context reports -/
+
+/-- `runImpl` is `runImplH` with the header mode of the code at /repo HEAD. -/
+theorem runImpl_is_entry (k : Kind) (chain : List Stage) (core : Core) (m0 : Msg) (c0 : Nat) :
+    runImpl k chain core m0 c0 = runImplH .entry k chain core m0 c0 := rfl
+
+theorem runImplH_eq_runSpecH (hm : HdrMode) (k : Kind) (chain : List Stage) (core : Core) (m0 : Msg)
+    (c0 : Nat) : runImplH hm k chain core m0 c0 = runSpecH hm k chain core m0 c0 := by
+  unfold runImplH runSpecH
+  rw [nextFrom_eq_specNext, List.drop_zero]
+
+/-- 8a. the header mode has no influence on anything but the `h` field of handler events on the
+    server message chain: client and item chains are the same function in both modes. -/
+theorem header_mode_irrelevant (hm : HdrMode) (k : Kind) (hk : k ≠ .srvmsg) (chain : List Stage)
+    (core : Core) (m0 : Msg) (c0 : Nat) :
+    runImplH hm k chain core m0 c0 = runImpl k chain core m0 c0 := by
+  cases k <;> cases hm <;> first | rfl | exact absurd rfl hk
+
+/-- 8b. THE CLAUSE "each receiving the context and message passed on by its predecessor … with the
+    core handler innermost", for the header: with the batch context made by the core handler
+    (`HdrMode.core`), every handler invocation on the server message chain — any chain, any stage
+    programs — is told the header OF THE MESSAGE IT EXECUTES. -/
+def C19_header_full (hm : HdrMode) : Prop :=
+  ∀ (chain : List Stage) (core : Core) (m0 : Msg) (c0 : Nat),
+    (runImplH hm .srvmsg chain core m0 c0).2.all Event.hdrOk = true
+
+theorem header_follows_message : C19_header_full .core := by
+  intro chain core m0 c0
+  unfold runImplH
+  rw [nextFrom_eq_specNext, List.drop_zero]
+  obtain ⟨tr, htr, ha⟩ := specNext_NextHdr .srvmsg core chain m0 c0 St.init
+  have : (mkRun .srvmsg m0.op
+      (specNext (coreRun .srvmsg core (hdrFn .core .srvmsg m0)) chain m0 c0 St.init)).2 = tr := by
+    simpa [St.init, mkRun, hdrFn] using htr
+  rw [this]
+  exact ha
+
+/-- 8c. the code at /repo HEAD does NOT have it: a stage that passes on another message (`mt1.c`)
+    gets the handler run on message 71 while its context reports header 7 — confirmed on the real
+    code (finding `mw:srvmsg:handler-header-not-of-message-executed`). -/
+theorem header_entry_stale : ¬ C19_header_full .entry := by
+  intro h
+  have := h [⟨1, [.setMsg (.tag 1), .call]⟩] ⟨[], .ok 5, []⟩ ⟨7, 1⟩ 9
+  rw [runImplH_eq_runSpecH] at this
+  revert this
+  decide
+
+example :
+    (runImplH .entry .srvmsg [⟨1, [.setMsg (.tag 1), .call]⟩] ⟨[], .ok 5, []⟩ ⟨7, 1⟩ 9).2
+      = [.enter 1 ⟨7, 1⟩ 9, .call 1 ⟨71, 1⟩ 9, .core 0 1 ⟨71, 1⟩ 9 7 (.ok 5),
+         .back 1 ⟨some ⟨5, 1⟩, none⟩, .exit 1 ⟨some ⟨5, 1⟩, none⟩] ∧
+    (runImplH .core .srvmsg [⟨1, [.setMsg (.tag 1), .call]⟩] ⟨[], .ok 5, []⟩ ⟨7, 1⟩ 9).2
+      = [.enter 1 ⟨7, 1⟩ 9, .call 1 ⟨71, 1⟩ 9, .core 0 1 ⟨71, 1⟩ 9 71 (.ok 5),
+         .back 1 ⟨some ⟨5, 1⟩, none⟩, .exit 1 ⟨some ⟨5, 1⟩, none⟩] := by
+  rw [runImplH_eq_runSpecH, runImplH_eq_runSpecH]
+  decide
+
+/-! ### 9. concurrent requests sharing the chain -/
+
+/-- 9a. RE-ENTRANCY UNDER CONCURRENCY. Run the chain code with a memory cell outside the call that
+    other goroutines (running the same chain, or anything else) overwrite with arbitrary values after
+    EVERY event of this run (`env`): result and trace are exactly those of the undisturbed run — for
+    every chain, every stage program, every handler script, all three kinds. The chain code has no
+    shared mutable state to be disturbed through: the position in the chain is the parameter `i` of
+    `nextFrom(i)`, not a cell. -/
+theorem concurrent_run_independent (env : Nat → Nat) (k : Kind) (chain : List Stage) (core : Core)
+    (m0 : Msg) (c0 : Nat) :
+    runImplP env k chain core m0 c0 = runImpl k chain core m0 c0 := by
+  have hsim := nextFromP_sim env chain (coreRunP_sim env k core (hdrOf k m0)) _ 0 rfl m0 c0
+    { trace := [], calls := 0, cur := env 0 } St.init ⟨rfl, rfl⟩
+  obtain ⟨h1, h2, _⟩ := hsim
+  simp only [runImplP, runImpl, mkRun]
+  rw [h1, h2]
+
+/-- 9b. … whereas a chain that keeps its cursor in such a cell (the pre-fix cursor moved into the
+    `Client` / `BatchExecutor` struct) is disturbed: when other goroutines keep resetting the cell to 0
+    (they start their own requests), stage 1 is entered again and again and stage 2 is never reached;
+    when another goroutine has advanced it past the end after this run's first event, stage 2 is
+    skipped. -/
+theorem shared_cursor_disturbed :
+    enters (runSharedCursorP (fun _ => 0) .client [⟨1, [.call]⟩, ⟨2, [.call]⟩]
+      ⟨[], .ok 5, []⟩ ⟨1, 1⟩ 1).2 = [(1, ⟨1, 1⟩, 1), (1, ⟨1, 1⟩, 1), (1, ⟨1, 1⟩, 1)] ∧
+    enters (runSharedCursorP (fun n => if n < 2 then 0 else 5) .client [⟨1, [.call]⟩, ⟨2, [.call]⟩]
+      ⟨[], .ok 5, []⟩ ⟨1, 1⟩ 1).2 = [(1, ⟨1, 1⟩, 1)] ∧
+    enters (runImpl .client [⟨1, [.call]⟩, ⟨2, [.call]⟩] ⟨[], .ok 5, []⟩ ⟨1, 1⟩ 1).2
+      = [(1, ⟨1, 1⟩, 1), (2, ⟨1, 1⟩, 1)] := by
   rw [runImpl_eq_runSpec]
   decide
 
